@@ -350,3 +350,32 @@ def check_dump_buffer_fits(ctx, rule):
         ctx.check(v >= need, rule, "ovnidump:decode-buffer", f.loc(i),
                   "ovnidump decodes into %d bytes, but a listed event with the longest legal label needs up to %d (%d of "
                   "description + %d of label): such an event is printed as UNKNOWN" % (v, need, longest, maxlabel))
+
+
+def check_mark_type_range_agrees(ctx, rule):
+    """Every mark type that can be defined can be used: the types ovni_mark_type accepts (evaluated on -1, 0, 1, 99,
+    100) are accepted by ovni_mark_push / pop / set with a legal value."""
+    prog = ctx.prog
+    eff = effects.Effects(prog)
+    sums = {"get_thread_metadata": lambda ex_, st, a, f, e: [(PTR("META"), {})],
+            "json_object_dotget_value": lambda ex_, st, a, f, e: [(NULL, {})],
+            "json_object_dotset_string": lambda ex_, st, a, f, e: [(INT(0), {})],
+            "json_object_dotset_value": lambda ex_, st, a, f, e: [(INT(0), {})],
+            "snprintf": lambda ex_, st, a, f, e: [(INT(12), {})], "__builtin___snprintf_chk": lambda ex_, st, a, f, e: [(INT(12), {})],
+            "ovni_clock_now": lambda ex_, st, a, f, e: [(INT(1000), {})], "ovni_ev_add": lambda ex_, st, a, f, e: [(TOP, {})],
+            "ovni_ev_emit": lambda ex_, st, a, f, e: [(TOP, {})], "ovni_payload_add": lambda ex_, st, a, f, e: [(TOP, {})],
+            "ovni_ev_set_mcv": lambda ex_, st, a, f, e: [(TOP, {})], "ovni_ev_set_clock": lambda ex_, st, a, f, e: [(TOP, {})]}
+    mt = prog.fn("ovni_mark_type", OV)
+
+    def accepts(fn, args):
+        ex = absint.Explorer(prog, effects=eff, loop_bound=2, max_depth=3, summaries=sums)
+        outs = ex.run(fn, args, {(RT, F("ovni_rthread", "ready")): INT(1), (RP, F("ovni_rproc", "st")): INT(prog.enum_val("ST_READY"))})
+        return bool(outs) and any(o.kind in ("ret", "exit") for o in outs)
+    defined = [t for t in (-1, 0, 1, 99, 100) if accepts(mt, [INT(t), INT(0), ("str", "T")])]
+    ctx.need(defined, "ovni_mark_type accepts none of -1, 0, 1, 99, 100")
+    for name in ("ovni_mark_push", "ovni_mark_pop", "ovni_mark_set"):
+        fn = prog.fn(name, OV)
+        refused = [t for t in defined if not accepts(fn, [INT(t), INT(5)])]
+        ctx.check(not refused, rule, "%s:usable-types" % name, fn.loc(),
+                  "ovni_mark_type accepts the types %s but %s aborts for type(s) %s: a documented, defined mark type cannot be "
+                  "used" % (defined, name, refused))
